@@ -13,6 +13,15 @@ CHECKS = {
         note="regex engine abstract (match matrix from CPython re); end-to-end use of the predicate is covered by C03",
         technique="Lean 4 theorems on hand-written model + differential correspondence with real build_filtering_func",
         design="§5 C08"),
+    "C10": dict(
+        text="Lean theorems for every well-founded layer graph and every input list: result is duplicate-free with "
+             "exactly the requested members, bases precede derived layers, the unit layer is first, and (for "
+             "injective names) every permutation of the input gives the same list; model tied to order_by_bases / "
+             "gather_layers / layer_sort_key by exhaustive small DAGs + random DAGs; clauses monitored on real results.",
+        note="Python sorted() modelled as stable insertion sort; layer names injective (guard, witness proved); "
+             "contiguity of a layer's tests is C03",
+        technique="Lean 4 theorems on hand-written model + differential correspondence with real order_by_bases",
+        design="§5 C10"),
 }
 
 NOT_APPLICABLE = {}
